@@ -120,17 +120,25 @@ def run(ck, tier, seed):
     for e in ["1 )", "1 ]", "(1", "1 + 2 ) * 3", "[1, 2", "f(1))", "a ) b", ") 1", "1 ) ) )", "(1) ]"]:
         for pre, post in (("", ""), ("x", "y"), ("${1}", "")):
             inter.append(f'var s = "{pre}${{{e}}}{post}"; s')
-    inp, out2 = os.path.join(work, "given.in.ndjson"), os.path.join(work, "given.out.ndjson")
-    lib.write_ndjson(inp, [{"id": x["id"], "cls": classes(x["text"])} for x in given])
-    with open(os.path.join(lib.SPEC, f"BracketsExportGiven_run_{os.getpid()}.cfg"), "w") as f:
-        f.write('INIT Init\nNEXT Next\nCONSTANTS\n  Alphabet = {"a"}\n  MaxLen = 0\n  ShardK = 0\n  ShardN = 1\n')
-    try:
-        r = lib.tlc("BracketsExportGiven", f"BracketsExportGiven_run_{os.getpid()}", workers=1, env={"IN": inp, "OUT": out2}, timeout=2400, heap="6g", extra_java=["-Xss64m"])
-    finally:
-        os.unlink(os.path.join(lib.SPEC, f"BracketsExportGiven_run_{os.getpid()}.cfg"))
-    if not r.ok:
-        raise lib.Infra("Brackets verdicts for generated programs failed: " + r.output[-1200:])
-    gv = {x["id"]: x for x in lib.read_ndjson(out2)}
+    def given_shard(k):
+        part = given[k::shards]
+        inp, out2 = os.path.join(work, f"given.in.{k}.ndjson"), os.path.join(work, f"given.out.{k}.ndjson")
+        lib.write_ndjson(inp, [{"id": x["id"], "cls": classes(x["text"])} for x in part])
+        name = f"BracketsExportGiven_run_{os.getpid()}_{k}"
+        with open(os.path.join(lib.SPEC, name + ".cfg"), "w") as f:
+            f.write('INIT Init\nNEXT Next\nCONSTANTS\n  Alphabet = {"a"}\n  MaxLen = 0\n  ShardK = 0\n  ShardN = 1\n')
+        try:
+            r = lib.tlc("BracketsExportGiven", name, workers=1, env={"IN": inp, "OUT": out2}, timeout=2400, heap="3g")
+        finally:
+            os.unlink(os.path.join(lib.SPEC, name + ".cfg"))
+        if not r.ok:
+            raise lib.Infra("Brackets verdicts for generated programs failed: " + r.output[-1200:])
+        return lib.read_ndjson(out2)
+    gvl = []
+    with ThreadPoolExecutor(max_workers=shards) as ex:
+        for rs in ex.map(given_shard, range(shards)):
+            gvl += rs
+    gv = {x["id"]: x for x in gvl}
     # ---- the real parser: many texts per engine (parse does not change engine state)
     items = [("t%d" % i, concrete(rec["text"]), rec["verdict"], rec["trivia"], None) for i, rec in enumerate(recs)]
     items += [(x["id"], x["text"], gv[x["id"]]["verdict"], gv[x["id"]]["trivia"], x["valid"]) for x in given]
